@@ -158,7 +158,7 @@ IntervalSeq == << <<Term(1, 0, 0), Term(0, 1, 0)>>,    \* {start}:{stop}
                  <<Term(0, 0, 1), Term(0, 1, -1)>>,   \* 1:{stop}-1
                  <<Term(1, 0, 0), Term(1, 0, 0)>>,    \* {start}:{start}
                  <<Term(0, 1, 0), Term(0, 1, 1)>>,    \* {stop}:{stop}+1
-                 <<Term(1, 0, -2), Term(1, 0, -1)>>,  \* {start}-2:{start}-1
+                 <<Term(1, 0, -1), Term(1, 0, 0)>>,   \* {start}-1:{start}
                  <<Term(2, 0, -1), Term(-1, 1, 1)>>,  \* 2*{start}-1:{stop}-{start}+1
                  <<Term(0, 0, 3), Term(0, 0, 2)>> >>  \* 3:2 (empty)
 NI == Len(IntervalSeq)
@@ -200,7 +200,7 @@ InvBoxLog == LET b == RefBox(sel.off, sel.pt, sel.name, sel.g)
 \* transformation histories to apply to it
 CONSTANT Tier
 K(o, t, sp) == [off |-> o, pt |-> t, sp |-> sp]
-Ops1 == {"OMP", "OMPL", "ACC", "ACCK", "EXT", "CLB", "MOVE1"}
+Ops1 == {"OMP", "OMPL", "ACC", "EXT", "CLB", "MOVE1"}
 Ops2 == {"FUSE", "FUSEO", "OMP", "ACC", "EXT", "CLB", "MOVE1", "MOVE2"}
 SeqsUpTo(S, n) == UNION {[1..m -> S] : m \in 1..n}
 Distinct(h) == \A a, b \in DOMAIN h : a # b => h[a] # h[b]
